@@ -581,6 +581,22 @@ def install(w):
         raise Unsupported('ExactSizeIterator::len on %r' % (it,))
     M['<_ as ExactSizeIterator>::len'] = m_len
 
+    class FromFnIt(IterModel):
+        def __init__(self, f):
+            self.f = f
+
+        def it_next(self, ex):
+            o = ex.call_value(self.f, [])
+            return o.fields[0] if o.variant == 'Some' else END
+    M['iter::from_fn'] = lambda ex, c, a: FromFnIt(a[0])
+    M['from_fn'] = M['iter::from_fn']
+
+    def m_from_iter(ex, c, a):
+        ty = c.selfty
+        g = ex.env.get('generics', {})
+        ty = g.get(ty, ty)
+        return collect_into(ex, ty, drain_all(ex, into_iter(ex, a[0])))
+    M['<_ as FromIterator>::from_iter'] = m_from_iter
     M['iter::once'] = lambda ex, c, a: ListIter([a[0]])
     M['iter::empty'] = lambda ex, c, a: ListIter([])
 
